@@ -33,7 +33,30 @@ theorem consumes_declared_length (max : Nat) (ctx : Ctx) (s rest : Bytes) (l : I
     (hlo : lenTooLow l = false) (hhi : lenTooHigh l max = false)
     (hlen : l.toNat ≤ rest.length) :
     (nextFrame max ctx s).rest = rest.drop l.toNat := by
-  sorry
+  unfold nextFrame
+  rw [hp]
+  simp only [hlo, hhi, Bool.false_eq_true, if_false]
+  obtain ⟨a1, a2⟩ := runFrame_then_drain Prog.byte l.toNat rest hlen
+  revert a1 a2
+  generalize runFrame Prog.byte l.toNat rest = x
+  obtain ⟨⟨v, r⟩, rem1⟩ := x
+  intro a1 a2
+  simp only at a1 a2
+  cases v with
+  | error e => simp only []; rw [finishFrame_rest _ _ _ a1, a2]
+  | ok nb =>
+    simp only []
+    split
+    · rw [finishFrame_rest _ _ _ a1, a2]
+    obtain ⟨b1, b2⟩ := runFrame_then_drain (decodeRPC ctx l.toNat (nb.toNat - 0x90)) rem1 r a1
+    revert b1 b2
+    generalize runFrame (decodeRPC ctx l.toNat (nb.toNat - 0x90)) rem1 r = y
+    obtain ⟨⟨v', r'⟩, rem2⟩ := y
+    intro b1 b2
+    simp only at b1 b2
+    cases v' with
+    | error e => simp only []; rw [finishFrame_rest _ _ _ b1, b2, a2]
+    | ok fr => simp only []; rw [finishFrame_rest _ _ _ b1, b2, a2]
 
 /-- Each frame is decoded by a fresh decoder: the result of `NextFrame` is a
     function of the stream suffix and the endpoint context only (no state
